@@ -215,6 +215,7 @@ var families = []string{
 	"bin-resized-count-consistent",
 	"exactly-84",
 	"bin-large",
+	"bin-valid-round-counts",
 	"ascii-large",
 	"bin-valid",
 	"ascii-valid",
@@ -316,6 +317,15 @@ func genInput(t *rapid.T) ([]byte, string) {
 		}
 		binary.LittleEndian.PutUint32(b[80:], uint32(m))
 		return b, fam
+
+	case "bin-valid-round-counts":
+		// well-formed binary files whose triangle count is a power of two, a multiple of a plausible block
+		// size, or one off (a reader that works in blocks meets its boundary exactly)
+		n := rapid.SampledFrom([]int{256, 512, 1024, 255, 257, 128, 64, 100, 1000, 768, 2048, 4096, 1023, 1025, 16384, 65536, 65535}).Draw(t, "n")
+		if rapid.IntRange(0, 3).Draw(t, "times") == 0 {
+			n *= rapid.IntRange(2, 5).Draw(t, "k")
+		}
+		return buildBinary(drawHeader(t), uint32(n), drawRecords(t, n)), fam
 
 	case "bin-large":
 		// > 64 KiB of binary data: with a wrong count the text scanner meets it
